@@ -253,6 +253,40 @@ func TestC08(t *testing.T) {
 			c.Sample(map[string]any{"script": h.Script, "signal": sig.String(), "options": o.String(), "batches": h.Len()})
 		}
 	})
+	// every dictionary-encodable field of every record type unique per item (own resource and scope included):
+	// all dictionary columns of a record cross their index width - or the limit - in the same build, which
+	// asks for many schema updates at once; staggered variant: the columns cross one after the other
+	r.Layer("wide", e.Pick(18, 90), func(c *vc.Case) {
+		sig := canon.Signal(c.Idx % 3)
+		o := DefaultOpts()
+		o.Limit = []string{"default", "8", "16", "none", "32", "8"}[(c.Idx/3)%6]
+		o.Reset = []float64{0, 0.05, 0.3, 1, 10, -1}[c.R.IntN(6)]
+		o.Zstd = c.R.IntN(2)
+		if sig == canon.Traces {
+			o.SpanOrder, o.A16, o.A32 = c.R.IntN(8)-1, c.R.IntN(5)-1, c.R.IntN(6)-1
+		}
+		var lazy *History
+		switch c.R.IntN(3) {
+		case 0:
+			lazy = WideHistory(sig, 3, 300, 0)
+		case 1:
+			lazy = WideHistory(sig, 2, 700, 0)
+		default:
+			lazy = WideHistory(sig, 40, 120, 1)
+		}
+		h := &History{Script: lazy.Script}
+		for k := 0; k < lazy.Len(); k++ {
+			h.Batches = append(h.Batches, lazy.At(k))
+			lazy.Forget(k)
+		}
+		noPanicHistory(c, h, o, nil, false)
+		c.Count("wide_batches", int64(len(h.Batches)))
+		c.FP(h.Script, sig.String(), o.String())
+		c.Nontrivial(true)
+		if c.Idx < 6 {
+			c.Sample(map[string]any{"script": h.Script, "signal": sig.String(), "options": o.String(), "batches": h.Len()})
+		}
+	})
 	// oversize family: kind x size x placement
 	sizes := []int{65536, 65600, 131073}
 	placements := []string{"first", "after-valid", "between-valid", "twice"}
